@@ -252,6 +252,16 @@ inductive AStep : A → QEntry ℚ → A → List (Int × ℚ) → Prop
   | serveTx (a : A) (q q' : QEntry ℚ) (g t : EvId) (id : Int) (h : a.port = .H g id q) (hr : 0 < rate)
       (ht : q'.time = q.time + txTime size rate id ∧ q'.prio = NORMAL) :
       AStep a q { a with port := .T t id q', busy := true, bsz := size id } []
+  /-- `rate ≤ 0`: the `StoreGet` event is processed, the packet leaves in the same burst, the store is empty -/
+  | serveNowIdle (a : A) (q : QEntry ℚ) (g g' : EvId) (id : Int) (h : a.port = .H g id q) (hr : ¬ 0 < rate)
+      (hi : a.items = []) :
+      AStep a q { a with port := .W g', bytes := a.bytes - (size id : Int), busy := false, bsz := 0, last := some q.time }
+        [(id, q.time)]
+  /-- `rate ≤ 0`: the packet leaves in the burst that took it and the next one is taken at once -/
+  | serveNowNext (a : A) (q q' : QEntry ℚ) (g g' : EvId) (id i : Int) (is : List Int) (h : a.port = .H g id q)
+      (hr : ¬ 0 < rate) (hi : a.items = i :: is) (ht : q'.time = q.time ∧ q'.prio = NORMAL) :
+      AStep a q { a with port := .H g' i q', items := is, bytes := a.bytes - (size id : Int), busy := false, bsz := 0,
+                         last := some q.time } [(id, q.time)]
   /-- the transmission ends, the store is empty: the server blocks in `get` -/
   | fireIdle (a : A) (q : QEntry ℚ) (t g : EvId) (id : Int) (h : a.port = .T t id q) (hi : a.items = []) :
       AStep a q { a with port := .W g, bytes := a.bytes - (size id : Int), busy := false, bsz := 0, last := some q.time }
